@@ -138,10 +138,16 @@ fn draw_text_on(t: &TextD, font: &MonoFont<'_>, native: bool, bx: embedded_graph
 }
 
 fn check_line(ctx: &mut Ctx, t: &TextD, font: &MonoFont<'_>, font_name: &str, index_of: &dyn Fn(char) -> usize, class: &str) {
+    check_line_drawn_as(ctx, t, t, font, font_name, index_of, class)
+}
+
+/// `t` describes the line content the model is built from, `drawn` is the text handed to the library
+/// (the same content, possibly followed by a line ending)
+fn check_line_drawn_as(ctx: &mut Ctx, t: &TextD, drawn: &TextD, font: &MonoFont<'_>, font_name: &str, index_of: &dyn Fn(char) -> usize, class: &str) {
     ctx.eval();
     let (want, no_verdict) = model_line(font, t, index_of);
     for native in [false, true] {
-        let mut got = draw_text(t, font, native);
+        let mut got = draw_text(drawn, font, native);
         let mut want = want.clone();
         for p in &no_verdict {
             got.px.remove(p);
@@ -193,7 +199,7 @@ fn check_line(ctx: &mut Ctx, t: &TextD, font: &MonoFont<'_>, font_name: &str, in
             }
         }
         for native in [false, true] {
-            let mut got = draw_text_on(t, font, native, bx);
+            let mut got = draw_text_on(drawn, font, native, bx);
             for p in &no_verdict {
                 got.px.remove(p);
             }
@@ -227,7 +233,7 @@ fn text_of(s: String, font: FontD, style: usize, rng: &mut Rng) -> TextD {
     TextD { text: s, at: (rng.i32r(-40, 40), rng.i32r(-40, 40)), font, text_color: st.0, bg: st.1, underline: st.2, strike: st.3, baseline: 0, align: 0, lh: LhD::Percent(100) }
 }
 
-const UNMAPPED: [char; 12] = ['\u{0}', '\u{1}', '\t', '\u{1f}', '\u{80}', '\u{9f}', '\u{fffd}', '\u{1F600}', '\u{10FFFF}', '\u{2028}', '\u{E000}', '\u{3042}'];
+const UNMAPPED: [char; 13] = ['\r', '\u{0}', '\u{1}', '\t', '\u{1f}', '\u{80}', '\u{9f}', '\u{fffd}', '\u{1F600}', '\u{10FFFF}', '\u{2028}', '\u{E000}', '\u{3042}'];
 
 fn main() {
     main_with("c14", "exploration", |run: &Run| {
@@ -344,6 +350,13 @@ fn main() {
             let q = font.glyph_mapping.index('?');
             let index_unm = |c: char| if mapped.contains(&c) { font.glyph_mapping.index(c) } else { q };
             check_line(ctx, &t, font, &fname, &index_unm, "built-in-font-unmapped");
+            // a carriage return is an unmapped character as well - unless it is the first half of a
+            // CR LF line ending: content "a..z" + CR, drawn with a CR LF ending after it
+            let mut content = t.clone();
+            content.text.push('\r');
+            let mut drawn = content.clone();
+            drawn.text.push_str("\r\n");
+            check_line_drawn_as(ctx, &content, &drawn, font, &fname, &index_unm, "built-in-font-unmapped-cr");
             if ctx.wants_sample() {
                 ctx.sample(|| jobj! {"font" => fname.clone(), "style" => style as u64, "characters" => chars.len() as u64});
             }
